@@ -4,5 +4,5 @@
 Require Extraction.
 Require Import ExtrOcamlBasic.
 Require Import Model.Base Model.Field Model.Ir Model.Propagate Model.FieldDispatch Model.FieldPow Spec.FieldSpec Spec.DispatchSpec.
-Separate Extraction Base.base_roots Base.outcome Field.eval Field.all_fops FieldSpec.spec_exec
+Separate Extraction Base.base_roots Base.outcome Field.eval Field.all_fops Field.shift_w FieldSpec.spec_exec
   Ir.expr_val FieldDispatch.propagate_lit FieldDispatch.lit_dispatch DispatchSpec.doc_eval FieldPow.modpow_steps.
